@@ -22,6 +22,7 @@ import collections
 import collections.abc
 import dataclasses
 import enum
+import inspect
 import logging
 import re
 import traceback
@@ -1291,6 +1292,14 @@ class AgProtocol(utils.EventEmitter):
                 handler_name = f'_on_{command.code.lower()}'
 
             if handler := getattr(self, handler_name, None):
+                try:
+                    inspect.signature(handler).bind(*command.parameters)
+                except TypeError:
+                    logger.warning(
+                        'Unexpected number of parameters in %r', bytes(raw_command)
+                    )
+                    self.send_response('ERROR')
+                    continue
                 handler(*command.parameters)
             else:
                 logger.warning('Handler %s not found', handler_name)
